@@ -102,7 +102,7 @@ CLAIMS["C11"] = dict(
          "carry it. match_tag/check_element are compared with the model on the whole 3-tag domain; M3 is compared with "
          "the implementation on call trees whose bindings carry random tag sets; the raw stream (real names, values) is "
          "compared with the annotation table of the generated program, as are the instrumented sites of the rewritten "
-         "function and the string/object annotation forms.",
+         "function and the string/object annotation forms. A variable annotated at several places with tags, tag sets and tag-free annotations in every order: each binding is captured iff its own annotation carries the tag (finding F41).",
     design_ref="DESIGN.md section 5, C11",
     note="should_instrument (which sites are rewritten) is checked on the implementation by inspecting the rewritten "
          "AST, not proved. Globals read by the body are reported by an unrestricted generic capture as external "
